@@ -296,6 +296,7 @@ func TestC14Race(t *testing.T) {
 		n++
 		pc.mu.Lock()
 		co := pc.hits - before
+		clear(pc.last) // the sessions of a finished program must not stay reachable
 		pc.mu.Unlock()
 		rec.Case(hx.Hash64(p), co > 0, "cipher_"+p.Cipher, fmt.Sprintf("fec_%v", p.FEC[0] > 0))
 		if rec.WantSample() {
